@@ -170,6 +170,7 @@ def run(ck, prog):
     ck.rule("R14.5", "preprocessor directive table == reference directives")
     ck.rule("R14.10", "identifier and variable-name character classes equal the reference classes")
     ck.rule("R14.9", "digit-leading identifiers: the scanner entered on a digit can produce an identifier")
+    ck.rule("R14.11", "the number scanner agrees with the reference on every short digit- or sign-led string")
     ck.rule("R14.8", "block comment scanner keeps a nesting depth: `/*` opens, `*/` closes, the token ends at depth 0")
     ck.rule("R14.7", "string literal scanner: transitions required for valid literals (escapes, closing quote)")
     ck.rule("R14.6", "integer lexemes are validated with a full-width unsigned parse (signed only behind a leading '-')")
@@ -349,6 +350,7 @@ def run(ck, prog):
     string_scanner(ck, prog)
     # R14.8 -----------------------------------------------------------------------
     comment_scanner(ck, prog)
+    number_scanner(ck, prog)
 
     # R14.5 -----------------------------------------------------------------------
     dirs = lx["directives"]
@@ -560,6 +562,156 @@ def comment_scanner(ck, prog):
     ck.ob("R14.8", "comment:all-terminated", not bad, "%d terminated (nested) comments end where the reference says" % n,
           msg="Lexer::block_comment disagrees with the nested-comment reference on %d classes of comments" % len(bad))
     ck.floor("R14.8", "terminated comment bodies evaluated", n, 1000)
+
+
+def number_scanner(ck, prog):
+    """R14.11: Lexer::number (entered after the first character: a digit, `+` or `-`), evaluated from its MIR on every
+    string of up to 4 (thorough: 5) characters over {0 1 2 b x a f F g _ + - space}. Reference: LLVM TGLexer::LexToken /
+    LexNumber - after the leading decimal digits an identifier character makes the lexeme a digit-leading identifier
+    ([A-Za-z0-9_]*), except `0x` / `0b` directly followed by a digit of that radix, which starts a hexadecimal / binary
+    integer; a sign not followed by a digit is the `+` / `-` token. The scanner must return that kind having consumed
+    exactly that many characters and never an error. Modelled, not evaluated: the scanner API (unscanny), std's char
+    classes, Lexer::identifier (consumes identifier characters, yields Id or a keyword) and interpret_number (accepts a
+    well-formed lexeme that fits 64 bits; R14.6 looks at its width)."""
+    from .. import mirexec, ref as _ref
+    b = find_method(prog, "number")
+    ck.anchor(b is not None, "Lexer::number not found")
+    ck.anchor(b.argc == 3, "Lexer::number no longer takes (self, start, first character)")
+    ident_cont = None
+    ib = find_method(prog, "identifier")
+    ck.anchor(ib is not None, "Lexer::identifier not found")
+    for i, t in ib.calls():
+        if (Body.callee(t) or "").endswith("Scanner::<'a>::eat_while"):
+            raw = t["args"][1]
+            ident_cont = raw.get("fn") if isinstance(raw, dict) else None
+    ck.anchor(ident_cont is not None, "the continuation predicate of Lexer::identifier was not found")
+    cache = {}
+
+    def char_fn(fn, ch):
+        k = (fn, ch)
+        if k not in cache:
+            if fn in _ref.CHAR_PREDICATES:
+                cache[k] = _ref.CHAR_PREDICATES[fn](ch)
+            else:
+                body = prog.body(fn)
+                if body is not None and body.parent:           # closure: (env, char)
+                    fr = mirexec.Frame(body, lambda *a: (_ for _ in ()).throw(mirexec.Unsupported("call inside a pattern closure")))
+                    fr.locals[2] = ("int", ord(ch))
+                    out = fr.run(0)
+                    cache[k] = bool(out[1][1]) if out[0] == "return" and out[1] and out[1][0] == "int" else None
+                else:
+                    cache[k] = paths.eval_char_pred(prog, fn, ch)
+        return cache[k]
+
+    def deref(fr, a):
+        n = 0
+        while a is not None and a[0] == "ref" and n < 4:
+            a = fr.read_place(a[1])
+            n += 1
+        return a
+
+    def run(w):
+        model = None
+
+        def std_char(fr, args, t):
+            a = deref(fr, args[0] if args else None)
+            if a is None or a[0] != "int":
+                raise mirexec.Unsupported("character predicate on a non-character")
+            v = char_fn(t["f"].get("fn"), chr(a[1]))
+            if v is None:
+                raise mirexec.Unsupported("character predicate %s" % t["f"].get("fn"))
+            return ("int", 1 if v else 0)
+
+        def identifier(fr, args, t):
+            while model.pos < len(w) and char_fn(ident_cont, w[model.pos]):
+                model.pos += 1
+            return ("variant", "Id", -1, [])
+
+        def interpret(fr, args, t):
+            a = deref(fr, args[0] if args else None)
+            if a is None or a[0] != "str":
+                raise mirexec.Unsupported("interpret_number on an unevaluated lexeme")
+            lex = a[1]
+            import re as _re
+            ok = _re.fullmatch(r"[+-]?[0-9]+|0x[0-9a-fA-F]+|0b[01]+", lex) is not None
+            return ("some", ("int", 0)) if ok else ("none",)
+
+        def is_none(fr, args, t):
+            a = deref(fr, args[0] if args else None)
+            if a is None or a[0] not in ("some", "none"):
+                raise mirexec.Unsupported("Option::is_none on an unevaluated value")
+            return ("int", 1 if a[0] == "none" else 0)
+        extra = {"Lexer::<'a>::error": lambda fr, args, t: ("variant", "Error", -1, []),
+                 "Lexer::<'a>::identifier": identifier, "lexer::interpret_number": interpret,
+                 "Option::<T>::is_none": is_none, "Option::<T>::is_some": lambda fr, a, t: ("int", 1 - is_none(fr, a, t)[1])}
+        for name in _ref.CHAR_PREDICATES:
+            extra[name] = std_char
+        for pth, pb in prog.bodies.items():
+            if pth.startswith("syntax::lexer::") and not pb.parent and pb.argc == 1 and "Lexer" not in pth and \
+                    pb.local_ty(0) == "bool" and pb.local_ty(1) in ("char", "&char"):
+                extra[pth] = std_char
+        model = mirexec.ScannerModel(w, extra=extra, char_fn=char_fn)
+        model.pos = 1
+        fr = mirexec.Frame(b, model)
+        fr.locals[1] = ("self", ())
+        fr.locals[2] = ("int", 0)
+        fr.locals[3] = ("int", ord(w[0]))
+        out = fr.run(0)
+        if out[0] == "diverge":
+            return "panic", model.pos
+        kind = out[1][1] if out[0] == "return" and out[1] and out[1][0] == "variant" else str(out)
+        return kind, model.pos
+
+    def ref(w):
+        idc = lambda ch: ch.isascii() and (ch.isalnum() or ch == "_")
+        ids = lambda ch: ch.isascii() and (ch.isalpha() or ch == "_")
+        if w[0] in "+-":
+            if len(w) > 1 and w[1].isdigit():
+                j = 1
+                while j < len(w) and w[j].isdigit():
+                    j += 1
+                return "IntVal", j
+            return ("Plus" if w[0] == "+" else "Minus"), 1
+        j = 0
+        while j < len(w) and w[j].isdigit():
+            j += 1
+        if j < len(w) and ids(w[j]):
+            if j == 1 and w[0] == "0" and w[1] in "xb" and len(w) > 2 and \
+                    (w[2] in "0123456789abcdefABCDEF" if w[1] == "x" else w[2] in "01"):
+                k = 2
+                digits = "0123456789abcdefABCDEF" if w[1] == "x" else "01"
+                while k < len(w) and w[k] in digits:
+                    k += 1
+                return ("IntVal" if w[1] == "x" else "BinaryIntVal"), k
+            k = j
+            while k < len(w) and idc(w[k]):
+                k += 1
+            return "Id", k
+        return "IntVal", j
+    n = 0
+    bad = {}
+    alphabet = ["0", "1", "2", "b", "x", "a", "f", "F", "g", "_", "+", "-", " "]
+    for w in _all_strings(alphabet, 5 if ck.tier == "thorough" else 4):
+        if w[0] not in "012+-":
+            continue
+        n += 1
+        want = ref(w)
+        try:
+            got = run(w)
+        except mirexec.Unsupported as e:
+            ck.anchor(False, "Lexer::number could not be evaluated on %r (%s)" % (w, e))
+        if got != want:
+            sig = (want[0], got[0], (got[1] > want[1]) - (got[1] < want[1]))
+            if sig not in bad or len(w) < len(bad[sig][0]):
+                bad[sig] = (w, want, got)
+    ck.count(n)
+    for sig, (w, want, got) in sorted(bad.items(), key=str):
+        ck.ob("R14.11", "number:%s->%s%s" % (sig[0], sig[1], {0: "", 1: ":longer", -1: ":shorter"}[sig[2]]), False,
+              msg="Lexer::number on `%s`: the reference lexes %s of %d character(s), the scanner returns %s after %d" % (
+                  w, want[0], want[1], got[0], got[1]))
+    ck.ob("R14.11", "number:all", not bad, "%d digit- or sign-led strings are lexed as the reference says" % n,
+          msg="Lexer::number disagrees with the reference on %d classes of lexemes" % len(bad))
+    ck.floor("R14.11", "digit- or sign-led strings evaluated", n, 5000)
 
 
 def token_to_syntax(prog, fb):
